@@ -1261,24 +1261,70 @@ Qed.
 Lemma wf_afeat_all_pre fs : forallb wf_afeat fs = true -> forallb wf_afeat_pre fs = true.
 Proof. apply forallb_impl. intros f H. unfold wf_afeat in H. apply andb_prop in H. tauto. Qed.
 
+(* ---- a record without a FEATURES line: the ORIGIN block is read as header lines *)
+Lemma startswith_app_same a b c : startswith (a ++ b) (a ++ c) = startswith b c.
+Proof. induction a as [|x a IH]; [reflexivity|]. cbn [app startswith]. now rewrite byte_eqb_refl, IH. Qed.
+Lemma origin_hdr_line pos l : all_digits (dec_of_nat pos) = true -> (length (dec_of_nat pos) <= 8)%nat ->
+  startswith [sp] (origin_line_of pos l) = true /\ startswith (spaces 12) (origin_line_of pos l) = false.
+Proof.
+  intros Hd Hlen. unfold origin_line_of, pad_left. set (dg := dec_of_nat pos) in *.
+  destruct (all_digits_forall dg Hd) as [Hdd Hdn]. destruct dg as [|d0 dr] eqn:Edg; [congruence|].
+  assert (Hd0 : is_digit d0 = true) by (cbn in Hdd; apply andb_prop in Hdd; tauto).
+  assert (Hsp : byte_eqb sp d0 = false) by (destruct d0; try reflexivity; vm_compute in Hd0; discriminate Hd0).
+  set (n := (9 - length (d0 :: dr))%nat). assert (Hn : (1 <= n <= 8)%nat) by (unfold n; cbn [length] in *; lia).
+  rewrite <- !app_assoc. split.
+  - destruct n as [|n']; [lia|]. reflexivity.
+  - replace 12%nat with (n + (12 - n))%nat by lia. unfold spaces at 1. rewrite repeat_app. fold (spaces n). fold (spaces (12 - n)).
+    rewrite startswith_app_same. destruct (12 - n)%nat as [|m] eqn:E; [lia|]. cbn [spaces repeat app startswith]. now rewrite Hsp.
+Qed.
+Definition pos_ok8 (p : nat) : bool := all_digits (dec_of_nat p) && (length (dec_of_nat p) <=? 8)%nat.
+Definition hdr_sub_step (V : hv) (l : str) : hv := HA (aset (strip (lower (firstn 12 l))) (HS (value_of l)) [(k_id, V)]).
+Lemma origin_hdr_block excl ls : Forall chunk_ok ls -> forall pos s k V,
+  forallb pos_ok8 (pos_list pos (length ls)) = true -> mode s = PHeader -> key s = Some k -> aget k (attrs s) = Some V ->
+  Forall okline (origin_go ls pos) /\
+  exists s', steps_any excl s (origin_go ls pos) = ROk s' /\ mode s' = PHeader /\ rest_frame s s'
+    /\ attrs s' = aset k (fold_left hdr_sub_step (origin_go ls pos) V) (attrs s).
+Proof.
+  induction 1 as [|l r Hl Hr IH]; intros pos s k V Hp Hm Hk Hg.
+  - split; [constructor|]. exists s. split; [reflexivity|]. split; [exact Hm|]. split; [apply rest_frame_refl|].
+    cbn [origin_go fold_left]. symmetry. apply aset_same_val. exact Hg.
+  - cbn [length pos_list forallb] in Hp. apply andb_prop in Hp. destruct Hp as [Hp0 Hp].
+    unfold pos_ok8 in Hp0. apply andb_prop in Hp0. destruct Hp0 as [Hd Hlen]. apply Nat.leb_le in Hlen.
+    destruct Hl as (Hl1 & Hl2 & Hl3).
+    destruct (origin_line_facts pos l Hd ltac:(lia) Hl1 Hl2 Hl3) as (Ok & _ & _).
+    destruct (origin_hdr_line pos l Hd Hlen) as [B1 B2].
+    cbn [origin_go steps_any fold_left]. set (ln := origin_line_of pos l) in *.
+    assert (S1 : step excl s ln = ROk (set_hdr s (aset k (hdr_sub_step V ln) (attrs s)) (key s) (Some (strip (lower (firstn 12 ln)))))).
+    { unfold step. rewrite Hm. unfold step_header. rewrite B1. cbn [negb]. rewrite B2, Hk, Hg. reflexivity. }
+    rewrite S1. set (s1 := set_hdr s (aset k (hdr_sub_step V ln) (attrs s)) (key s) (Some (strip (lower (firstn 12 ln))))) in *.
+    destruct (IH (pos + 60)%nat s1 k (hdr_sub_step V ln) Hp Hm Hk (aget_aset_same _ _ _)) as (F & s' & S' & M' & Fr' & A').
+    split; [constructor; assumption|]. exists s'. split; [exact S'|]. split; [exact M'|]. split.
+    + eapply rest_frame_trans; [apply rest_frame_set|exact Fr'].
+    + rewrite A'. unfold s1. cbn [attrs set_hdr]. apply aset_aset.
+Qed.
+Lemma origin_hdr_val_eq lines : origin_hdr_val lines = fold_left hdr_sub_step lines (HS []).
+Proof. reflexivity. Qed.
+
 Definition rec_pre (r : arec) : list str :=
-  flat_map render_hfield (ahdr r) ++ [feat_header] ++ flat_map render_feat (afts r)
+  flat_map render_hfield (ahdr r) ++ (if afeatures r then [feat_header] ++ flat_map render_feat (afts r) else [])
   ++ (if aorigin r then [origin_line] ++ render_origin (aseq r) else []).
 
 Lemma finish_view excl r s5 :
-  fttype s5 = None -> acc_ok (attrs s5) (view_id r) -> attrs s5 = view_hdr (ahdr r) ->
-  seq s5 = (if mem k_seq excl || negb (aorigin r) then [] else aseq r) ->
-  mfts s5 = (if mem k_fts excl || negb (aorigin r) then None else Some (map feat0 (afts r))) ->
+  fttype s5 = None -> acc_ok (attrs s5) (view_id r) ->
+  attrs s5 = (if aorigin r && negb (afeatures r) then aset k_origin (origin_hdr_val (render_origin (aseq r))) (view_hdr (ahdr r))
+              else view_hdr (ahdr r)) ->
+  seq s5 = (if mem k_seq excl || negb (in_table r) then [] else aseq r) ->
+  mfts s5 = (if mem k_fts excl || negb (in_table r) then None else Some (map feat0 (afts r))) ->
   finish excl s5 = ROk (view_rec excl r).
 Proof.
   intros Ht Ha Hh Hs Hm. unfold finish, view_rec. rewrite Ht, Hs, Hm, <- Hh.
-  assert (U : upper (upper (if mem k_seq excl || negb (aorigin r) then [] else aseq r))
-              = (if mem k_seq excl || negb (aorigin r) then [] else upper (aseq r))).
-  { destruct (mem k_seq excl || negb (aorigin r)); [reflexivity|apply upper_idem]. }
+  assert (U : upper (upper (if mem k_seq excl || negb (in_table r) then [] else aseq r))
+              = (if mem k_seq excl || negb (in_table r) then [] else upper (aseq r))).
+  { destruct (mem k_seq excl || negb (in_table r)); [reflexivity|apply upper_idem]. }
   rewrite U. unfold acc_ok in Ha. unfold view_feat. destruct (view_id r) as [w|].
-  - destruct Ha as (v & G & Fw). rewrite G, Fw. destruct (mem k_fts excl || negb (aorigin r)); [destruct (mem k_translation excl); reflexivity|].
+  - destruct Ha as (v & G & Fw). rewrite G, Fw. destruct (mem k_fts excl || negb (in_table r)); [destruct (mem k_translation excl); reflexivity|].
     destruct (mem k_translation excl); cbn [option_map]; rewrite ?map_map; reflexivity.
-  - rewrite Ha. destruct (mem k_fts excl || negb (aorigin r)); [destruct (mem k_translation excl); reflexivity|].
+  - rewrite Ha. destruct (mem k_fts excl || negb (in_table r)); [destruct (mem k_translation excl); reflexivity|].
     destruct (mem k_translation excl); cbn [option_map]; rewrite ?map_map; reflexivity.
 Qed.
 
@@ -1315,44 +1361,77 @@ Lemma record_steps excl r k2 : wf_arec excl r = true ->
   Forall okline (rec_pre r) /\ exists s5, steps_any excl (st0 k2) (rec_pre r) = ROk s5 /\ finish excl s5 = ROk (view_rec excl r).
 Proof.
   intros W. unfold wf_arec in W.
+  apply andb_prop in W. destruct W as [W Wft].
   apply andb_prop in W. destruct W as [W Wor]. apply andb_prop in W. destruct W as [W Wpos]. apply andb_prop in W. destruct W as [W Wseq].
   apply andb_prop in W. destruct W as [W Wfts]. apply andb_prop in W. destruct W as [Whdr _].
-  assert (Wpre : forallb wf_afeat_pre (afts r) = true).
-  { eapply forallb_impl; [|exact Wfts]. intros f H. apply andb_prop in H. tauto. }
-  assert (Wfull : mem k_fts excl = false -> forallb wf_afeat (afts r) = true).
-  { intros He. eapply forallb_impl; [|exact Wfts]. intros f H. rewrite He in H. cbn [orb] in H. exact H. }
-  destruct (table_steps excl r k2 Whdr Wpre Wfull) as (F & s2 & S2 & M2 & A2 & E2 & Q2 & N2 & P2).
   destruct okline_concrete as [Ofh Ool].
-  unfold rec_pre. rewrite !app_assoc. rewrite <- (app_assoc _ [feat_header]).
-  destruct (aorigin r) eqn:Eo.
-  - destruct (mem k_fts excl) eqn:He.
-    + set (so := set_mode s2 POrigin).
-      destruct (origin_render excl so (aseq r) Wseq Wpos eq_refl Q2) as [F4 S4].
-      split. { apply Forall_app. split; [exact F|]. constructor; assumption. }
-      eexists. split.
-      * rewrite steps_any_app, S2. cbn [app steps_any]. rewrite step_origin_line_excl by (exact M2 || exact He). fold so. exact S4.
-      * apply finish_view; try rewrite He; try rewrite Eo; cbn [orb negb]; rewrite ?orb_false_r; try assumption; try reflexivity.
-    + destruct P2 as (s3 & Fl & HF & Ht & Hfr3). destruct Hfr3 as (_ & C2 & _ & _ & C5 & _).
-      set (so := mkst POrigin (attrs s3) (Some origin_line) (subkey s3) (fts s3) (fttype s3) (ftmeta s3) (key2 s3) (locs s3) (seq s3) (Some (fts s3))).
-      assert (Hseq : seq so = []) by (cbn; congruence).
-      destruct (origin_render excl so (aseq r) Wseq Wpos eq_refl Hseq) as [F4 S4].
-      split. { apply Forall_app. split; [exact F|]. constructor; assumption. }
-      eexists. split.
-      * rewrite steps_any_app, S2. cbn [app steps_any]. rewrite (step_origin_line excl s2 s3 M2 He Fl). fold so. exact S4.
-      * apply finish_view; try rewrite He; try rewrite Eo; cbn [orb negb]; rewrite ?orb_false_r.
-        -- exact Ht.
-        -- cbn [attrs set_seq so]. rewrite C2. exact A2.
-        -- cbn [attrs set_seq so]. rewrite C2. exact E2.
-        -- reflexivity.
-        -- cbn [mfts set_seq so]. rewrite HF. reflexivity.
-  - rewrite app_nil_r. split; [exact F|]. exists s2. split; [exact S2|].
-    cbn [orb] in Wor.
-    apply finish_view; try rewrite Eo; rewrite ?orb_true_r; try assumption.
-    destruct (mem k_fts excl) eqn:He; [exact P2|]. cbn [orb] in Wor.
-    destruct (afts r); [|discriminate Wor]. destruct P2 as (s3 & Fl & HF & Ht & _).
-    unfold flush in Fl. destruct (fttype s2); [|reflexivity]. exfalso.
-    destruct (locs s2); [|discriminate Fl]. destruct (parse_locs_str s0); [|discriminate Fl]. destruct (mk_loctuple a); [|discriminate Fl].
-    inversion Fl; subst s3. cbn in HF. destruct (fts s2); discriminate HF.
+  unfold rec_pre. destruct (afeatures r) eqn:Ef.
+  - (* with a FEATURES line *)
+    assert (Wpre : forallb wf_afeat_pre (afts r) = true).
+    { eapply forallb_impl; [|exact Wfts]. intros f H. apply andb_prop in H. tauto. }
+    assert (Wfull : mem k_fts excl = false -> forallb wf_afeat (afts r) = true).
+    { intros He. eapply forallb_impl; [|exact Wfts]. intros f H. rewrite He in H. cbn [orb] in H. exact H. }
+    destruct (table_steps excl r k2 Whdr Wpre Wfull) as (F & s2 & S2 & M2 & A2 & E2 & Q2 & N2 & P2).
+    rewrite !app_assoc. rewrite <- (app_assoc _ [feat_header]).
+    destruct (aorigin r) eqn:Eo.
+    + destruct (mem k_fts excl) eqn:He.
+      * set (so := set_mode s2 POrigin).
+        destruct (origin_render excl so (aseq r) Wseq Wpos eq_refl Q2) as [F4 S4].
+        split. { apply Forall_app. split; [exact F|]. constructor; assumption. }
+        eexists. split.
+        -- rewrite steps_any_app, S2. cbn [app steps_any]. rewrite step_origin_line_excl by (exact M2 || exact He). fold so. exact S4.
+        -- apply finish_view; unfold in_table; try rewrite He; try rewrite Eo; try rewrite Ef; cbn [orb negb andb]; rewrite ?orb_false_r; try assumption; try reflexivity.
+      * destruct P2 as (s3 & Fl & HF & Ht & Hfr3). destruct Hfr3 as (_ & C2 & _ & _ & C5 & _).
+        set (so := mkst POrigin (attrs s3) (Some origin_line) (subkey s3) (fts s3) (fttype s3) (ftmeta s3) (key2 s3) (locs s3) (seq s3) (Some (fts s3))).
+        assert (Hseq : seq so = []) by (cbn; congruence).
+        destruct (origin_render excl so (aseq r) Wseq Wpos eq_refl Hseq) as [F4 S4].
+        split. { apply Forall_app. split; [exact F|]. constructor; assumption. }
+        eexists. split.
+        -- rewrite steps_any_app, S2. cbn [app steps_any]. rewrite (step_origin_line excl s2 s3 M2 He Fl). fold so. exact S4.
+        -- apply finish_view; unfold in_table; try rewrite He; try rewrite Eo; try rewrite Ef; cbn [orb negb andb]; rewrite ?orb_false_r.
+           ++ exact Ht.
+           ++ cbn [attrs set_seq so]. rewrite C2. exact A2.
+           ++ cbn [attrs set_seq so]. rewrite C2. exact E2.
+           ++ reflexivity.
+           ++ cbn [mfts set_seq so]. rewrite HF. reflexivity.
+    + rewrite app_nil_r. split; [exact F|]. exists s2. split; [exact S2|].
+      cbn [orb] in Wor.
+      apply finish_view; unfold in_table; try rewrite Eo; try rewrite Ef; cbn [andb negb]; rewrite ?orb_true_r; try assumption.
+      destruct (mem k_fts excl) eqn:He; [exact P2|]. cbn [orb] in Wor.
+      destruct (afts r); [|discriminate Wor]. destruct P2 as (s3 & Fl & HF & Ht & _).
+      unfold flush in Fl. destruct (fttype s2); [|reflexivity]. exfalso.
+      destruct (locs s2); [|discriminate Fl]. destruct (parse_locs_str s0); [|discriminate Fl]. destruct (mk_loctuple a); [|discriminate Fl].
+      inversion Fl; subst s3. cbn in HF. destruct (fts s2); discriminate HF.
+  - (* without a FEATURES line: header state throughout *)
+    cbn [orb] in Wft. apply andb_prop in Wft. destruct Wft as [Wnil W8].
+    destruct (fields_lines excl (ahdr r) Whdr (st0 k2) None eq_refl eq_refl) as (F1 & sh & S1 & M1 & Fr1 & A1 & E1).
+    pose proof Fr1 as (_ & R2 & R3 & R4 & R5 & R6 & R7 & R8). cbn in R2, R3, R4, R5, R6, R7, R8. cbn [app].
+    destruct (aorigin r) eqn:Eo.
+    + (* the ORIGIN line is a header field, the residue lines its sub-fields *)
+      change (origin_line :: render_origin (aseq r)) with (render_field_lines (pad_right 12 (bs "ORIGIN"%bs)) [] ++ render_origin (aseq r)).
+      destruct (key_field_lines excl (bs "ORIGIN"%bs) [] sh ltac:(discriminate) eq_refl ltac:(cbn; lia) eq_refl eq_refl M1)
+        as (F2 & s2 & x & S2 & H2 & A2 & Fr2 & _ & Ex). cbn in Ex. subst x.
+      destruct H2 as (M2 & K2 & G2 & _ & _). change (lower (bs "ORIGIN"%bs)) with k_origin in *.
+      assert (Hp8 : forallb pos_ok8 (pos_list 1 (length (groups (S (length (aseq r))) 60 (aseq r)))) = true).
+      { unfold origin_positions in Wpos, W8. rewrite pos_list_map in Wpos, W8. unfold pos_ok8.
+        rewrite forallb_forall in Wpos, W8 |- *. intros p Hp. specialize (Wpos p Hp). specialize (W8 p Hp).
+        apply andb_prop in Wpos. destruct Wpos as [Wd _]. now rewrite Wd, W8. }
+      rewrite render_origin_eq.
+      destruct (origin_hdr_block excl _ (groups_chunk_ok (aseq r) Wseq) 1%nat s2 k_origin (HS []) Hp8 M2 K2 G2) as (F3 & s3 & S3 & M3 & Fr3 & A3).
+      split. { apply Forall_app. split; [exact F1|]. apply Forall_app. split; assumption. }
+      exists s3. split.
+      * rewrite steps_any_app, S1, steps_any_app, S2. exact S3.
+      * destruct Fr2 as (_ & P2 & P3 & P4 & P5 & P6 & P7 & P8). destruct Fr3 as (_ & Q2 & Q3 & Q4 & Q5 & Q6 & Q7 & Q8).
+        apply finish_view; unfold in_table; try rewrite Eo; try rewrite Ef; cbn [andb negb]; rewrite ?orb_true_r.
+        -- congruence.
+        -- rewrite A3, A2. rewrite aset_aset. unfold acc_ok, view_id in *. destruct (fold_left acc_step (ahdr r) None) as [w|].
+           ++ destruct A1 as (v & G & Fw). exists v. split; [|exact Fw]. rewrite aget_aset_other by reflexivity. exact G.
+           ++ rewrite aget_aset_other by reflexivity. exact A1.
+        -- rewrite A3, A2, aset_aset, E1. rewrite origin_hdr_val_eq, render_origin_eq. reflexivity.
+        -- congruence.
+        -- congruence.
+    + rewrite app_nil_r. split; [exact F1|]. exists sh. split; [exact S1|].
+      apply finish_view; unfold in_table; try rewrite Eo; try rewrite Ef; cbn [andb negb]; rewrite ?orb_true_r; try assumption.
 Qed.
 
 Lemma record_lines excl r rest k2 acc : wf_arec excl r = true ->
@@ -1360,7 +1439,7 @@ Lemma record_lines excl r rest k2 acc : wf_arec excl r = true ->
 Proof.
   intros W. destruct (record_steps excl r k2 W) as (F & s5 & S & Fi). exists (key2 s5).
   unfold render_rec.
-  replace (flat_map render_hfield (ahdr r) ++ [feat_header] ++ flat_map render_feat (afts r) ++ (if aorigin r then [origin_line] ++ render_origin (aseq r) else []) ++ [sl2] ++ (if ablank r then [[]] else []))
+  replace (flat_map render_hfield (ahdr r) ++ (if afeatures r then [feat_header] ++ flat_map render_feat (afts r) else []) ++ (if aorigin r then [origin_line] ++ render_origin (aseq r) else []) ++ [sl2] ++ (if ablank r then [[]] else []))
     with (rec_pre r ++ [sl2] ++ (if ablank r then [[]] else [])) by (unfold rec_pre; rewrite <- !app_assoc; reflexivity).
   rewrite <- app_assoc. rewrite run_lines_steps by exact F. rewrite S.
   cbn [app]. cbn [run_lines]. change (is_blank (rstrip sl2)) with false. change (str_eqb (strip (rstrip sl2)) sl2) with true. cbv iota.
@@ -1420,8 +1499,8 @@ Lemma exclude_exact excl r :
         (rhdr (view_rec [] r)).
 Proof.
   unfold view_rec. cbn [rid rseq rfts rhdr mem existsb orb]. f_equal.
-  - destruct (mem k_seq excl), (aorigin r); reflexivity.
-  - destruct (mem k_fts excl); [reflexivity|]. cbn [orb]. destruct (aorigin r); [|reflexivity]. cbn [negb option_map]. f_equal.
+  - destruct (mem k_seq excl), (in_table r); reflexivity.
+  - destruct (mem k_fts excl); [reflexivity|]. cbn [orb]. destruct (in_table r); [|reflexivity]. cbn [negb option_map]. f_equal.
     rewrite map_map. apply map_ext. intros f. unfold view_feat. cbn [mem existsb]. destruct (mem k_translation excl); reflexivity.
 Qed.
 (* names other than 'seq', 'fts', 'translation' in the exclude tuple have no effect *)
@@ -1435,18 +1514,22 @@ Lemma view_spec excl rs :
   length (view excl rs) = length rs
   /\ Forall2 (fun r v =>
        rid v = match view_id r with Some i => i | None => [] end
-       /\ rhdr v = adel k_reference (view_hdr (ahdr r))
-       /\ (mem k_seq excl = false -> aorigin r = true -> rseq v = upper (aseq r))
-       /\ (aorigin r = false -> rseq v = [] /\ rfts v = None)
-       /\ (mem k_fts excl = false -> aorigin r = true ->
+       /\ (afeatures r = true -> rhdr v = adel k_reference (view_hdr (ahdr r)))
+       /\ (mem k_seq excl = false -> aorigin r = true -> afeatures r = true -> rseq v = upper (aseq r))
+       /\ (aorigin r = false \/ afeatures r = false -> rseq v = [] /\ rfts v = None)
+       /\ (aorigin r = true -> afeatures r = false ->
+           rhdr v = adel k_reference (aset k_origin (origin_hdr_val (render_origin (aseq r))) (view_hdr (ahdr r))))
+       /\ (mem k_fts excl = false -> aorigin r = true -> afeatures r = true ->
            exists fl, rfts v = Some fl /\
              Forall2 (fun f g => ftype g = akey f /\ flocs g = sort_locs (sem (aloc f)) /\ fseqid g = view_id r
                         /\ (mem k_translation excl = false -> fquals g = quals_dict (aquals f))) (afts r) fl))
      rs (view excl rs).
 Proof.
   split; [apply map_length|]. unfold view. induction rs as [|r rs IH]; [constructor|]. cbn [map]. constructor; [|exact IH].
-  unfold view_rec. cbn [rid rseq rfts rhdr]. split; [reflexivity|]. split; [reflexivity|]. split; [intros -> ->; reflexivity|].
-  split; [intros ->; rewrite !orb_true_r; split; reflexivity|]. intros -> ->.
+  unfold view_rec, in_table. cbn [rid rseq rfts rhdr]. split; [reflexivity|].
+  split; [intros ->; rewrite andb_false_r; reflexivity|]. split; [intros -> -> ->; reflexivity|].
+  split; [intros [-> | ->]; rewrite ?andb_false_r; cbn [andb negb]; rewrite !orb_true_r; split; reflexivity|].
+  split; [intros -> ->; reflexivity|]. intros -> -> ->.
   eexists. split; [reflexivity|]. induction (afts r) as [|f fs IHf]; [constructor|]. cbn [map]. constructor; [|exact IHf].
   unfold view_feat. cbn. repeat split. intros ->. reflexivity.
 Qed.
